@@ -38,14 +38,17 @@ def main():
         os.remove(p)                     # replay files belong to one run
     t0 = time.time()
     try:
-        if tier == 'thorough' and a.prop in TWO_PASS and os.environ.get('VF_TWO_PASS', '1') != '0' and not os.environ.get('VF_ONLY'):
-            # the thorough tier of the family-based properties = the complete quick tier, then the deeper bounds under the budget
+        if tier == 'thorough' and os.environ.get('VF_TWO_PASS', '1') != '0' and not os.environ.get('VF_ONLY'):
+            # thorough = the complete quick tier, then the deeper bounds under the wall-time budget (thorough dominates quick)
             C.STASH = []
             os.environ['VF_TIER'] = 'quick'
             mod.run('quick')
             C.PRE, C.STASH = C.STASH, None
-            C.DONE = set(o.oid for o in C.PRE if o.verdict == C.DISCHARGED)
+            if a.prop in TWO_PASS:
+                # family-based: an id denotes the same query in both tiers, so what the first pass discharged is not repeated
+                C.DONE = set(o.oid for o in C.PRE if o.verdict == C.DISCHARGED)
             C.REPLAY_OFFSET = 5000
+            C._T0 = time.time()          # the budget is that of the second pass
             os.environ['VF_TIER'] = 'thorough'
         rc = mod.run(tier)
     except C.HarnessError as e:
